@@ -95,4 +95,13 @@ theorem tetEpicQuality_eq (mv : ℝ) (n0 n1 n2 n3 : QNode ℝ) :
   simp only [cmin_eq, mul_eq, add_eq, pow_two]
 
 
+/-- node 0 with its position moved along a line (metric and log-metric stay with the vertex) -/
+def Refine.Model.Quality.QNode.moved (n : QNode ℝ) (δ : V3 ℝ) (t : ℝ) : QNode ℝ := ⟨line n.x δ t, n.m, n.l⟩
+
+/-- the value of a quality result (`0` for an error status) -/
+def qval : Except Err ℝ → ℝ
+  | .ok q => q
+  | .error _ => 0
+
+
 end Refine.QualityDeriv
